@@ -45,6 +45,8 @@ def dec(c):
         return c["f"][0] / c["f"][1]
     if "b" in c:
         return bool(c["b"])
+    if "fr" in c:
+        return Fraction(c["fr"][0], c["fr"][1])
     if "cat" in c:
         from coba.primitives import Categorical
         return Categorical(c["cat"], list(c["levels"]))
@@ -68,7 +70,7 @@ def canon(o):
         return ["cat", str(o), [str(x) for x in o.levels]]
     if isinstance(o, str):
         return ["s", o]
-    if isinstance(o, (bool, int, float)):
+    if isinstance(o, (bool, int, float, Fraction)):
         try:
             fr = Fraction(o)
         except (ValueError, OverflowError):
@@ -85,6 +87,10 @@ def vkey(c):
     """value identity of a canonical atom as Python's == sees it (a Categorical is its string)"""
     if isinstance(c, list) and c and c[0] == "cat":
         return ["s", c[1]]
+    return c
+
+
+def vkey_deep(c):
     return c
 
 
@@ -120,7 +126,7 @@ def from_label(j):
 
 
 def num_res(v):
-    if isinstance(v, (bool, int, float)):
+    if isinstance(v, (bool, int, float, Fraction)):
         try:
             fr = Fraction(v)
         except (ValueError, OverflowError):
@@ -328,7 +334,57 @@ def build_env(case, tmp):
     return ctor(source, lc, lt, take)
 
 
-def observe(env, probes):
+def access_keys(case):
+    """how the contexts of this case can be addressed beside iteration: {"names": [feature header names / keys],
+    "label": the label column's header name / key, "dense": bool} or None (contexts are the caller's own objects)"""
+    src = case["src"]
+    if case.get("edge_kind") == "duplicate-header":
+        return None
+    if src in ("csv", "arff", "sarff") or (src == "rows" and not case.get("sparse")):
+        hdr = case.get("header")
+        if not hdr:
+            return {"names": [], "label": None, "dense": True}
+        li = label_index(case)
+        li = norm_index(li, len(hdr))
+        return {"names": [h for j, h in enumerate(hdr) if j != li], "label": hdr[li], "dense": src != "sarff"}
+    if src == "rows":
+        key = dec(case["label_col"])
+        names = []
+        for r in case["rows"]:
+            for k, _ in r:
+                if dec(k) != key and dec(k) not in names:
+                    names.append(dec(k))
+        return {"names": names, "label": key, "dense": False}
+    return None
+
+
+def try_get(f):
+    try:
+        return ["v", canon(f())]
+    except Exception as e:
+        return ["err", ename(e)]
+
+
+def observe_access(ctx, keys):
+    """the context addressed by position, by every feature name / key, by the label's name / key, and its .headers"""
+    acc = {}
+    if keys["dense"]:
+        n = try_get(lambda: len(ctx))
+        acc["len"] = n
+        if n[0] == "v":
+            acc["pos"] = [try_get(lambda j=j: ctx[j]) for j in range(n[1][1])]
+        try:
+            h = ctx.headers
+            acc["headers"] = sorted(([k, v] for k, v in dict(h).items()), key=lambda p: p[1]) if h else []
+        except Exception:
+            acc["headers"] = None
+    acc["names"] = [[canon(k), try_get(lambda k=k: ctx[k])] for k in keys["names"]]
+    if keys["label"] is not None:
+        acc["label"] = try_get(lambda: ctx[keys["label"]])
+    return acc
+
+
+def observe(env, probes, keys=None):
     """one read of the environment -> canonical observation"""
     try:
         ints = list(env.read())
@@ -341,6 +397,8 @@ def observe(env, probes):
             o["ctx"] = canon(it["context"])
         except Exception as e:
             o["ctx_err"] = ename(e)
+        if keys is not None and not o["ctx_err"]:
+            o["acc"] = observe_access(it["context"], keys)
         acts = list(it["actions"])
         o["actions"] = [canon(a) for a in acts]
         rw = it["rewards"]
@@ -366,7 +424,8 @@ def run_impl(case, probes, reads=2):
             env = build_env(case, tmp)
         except Exception as e:
             return [{"err": "ctor:" + ename(e)}] * reads
-        return [observe(env, probes) for _ in range(reads)]
+        keys = access_keys(case)
+        return [observe(env, probes, keys) for _ in range(reads)]
     finally:
         if tmp:
             shutil.rmtree(tmp, ignore_errors=True)
@@ -409,6 +468,13 @@ def make_probes(case, exp, rng):
         return [FOREIGN_S, 7]
     if lt == "r":
         ys = [dec_canon(l) for l in exp["labels"] if l[0] == "q"]
+        exact_only = any(isinstance(y, Fraction) or (isinstance(y, int) and abs(y) >= 2 ** 52) for y in ys)
+        if exact_only:
+            # int/Fraction arithmetic is exact in Python: every reward is compared exactly, at small distances from the target
+            ps = [0, 1, -3]
+            for y in ys[:4]:
+                ps += [y, y + 1, y - 1, y + 3] if not isinstance(y, float) else [int(y)]
+            return ps[:16]
         ps = [0, 1, -3, 2.5]
         for y in ys[:4]:
             ps += [y, y + 1, y - 0.5]
@@ -457,7 +523,9 @@ def dec_canon(c):
     if c[0] == "cat":
         return c[1]
     if c[0] == "q":
-        return c[1] if c[2] == 1 else c[1] / c[2]
+        if c[2] == 1:
+            return c[1]
+        return c[1] / c[2] if c[2] & (c[2] - 1) == 0 and abs(c[1]) < 2 ** 53 else Fraction(c[1], c[2])
     if c[0] == "L":
         return [dec_canon(x) for x in c[1]]
     raise ValueError(c)
@@ -481,8 +549,10 @@ def res_is(res, value):
     """res (canonical reward result) is the number `value` (float/int, compared exactly)"""
     if res[0] != "v":
         return False
-    # exact, or (model side: exact rational vs the double the statement's formula gives) equal after rounding to double
-    return Fraction(res[1], res[2]) == Fraction(value) or res[1] / res[2] == float(value)
+    # exact; for values in [0,1] (Jaccard: the model gives the exact rational, the statement's formula a double) equal after rounding to double
+    if Fraction(res[1], res[2]) == Fraction(value):
+        return True
+    return 0 <= Fraction(value) <= 1 and res[1] / res[2] == float(value)
 
 
 def monitor(obs, exp, probes, case, readno, who="impl"):
@@ -527,6 +597,41 @@ def monitor(obs, exp, probes, case, readno, who="impl"):
                 sig = "order" + (":take" if case.get("take") is not None else "")
             fail(sig, "context of interaction %d is %s, the example's features are %s" % (i, short(it["ctx"]), short(exp["feats"][i])), ["ctx"])
             break
+    # the context addressed in other ways than iteration: by position and by feature name it gives the features,
+    # by the label column's name / key it gives nothing (the true label cannot be read out of the context)
+    if not case.get("edge") and not any("ctx" in f[2] for f in fails):
+        for i, it in enumerate(ints):
+            acc = it.get("acc")
+            if not acc:
+                continue
+            f = exp["feats"][i]
+            if "label" in acc and acc["label"][0] == "v":
+                fail("context-leaks-label:" + src, "context[%r] of interaction %d gives %s; the label column must not be readable from the context (true label %s)"
+                     % (access_keys(case)["label"], i, short(acc["label"][1]), short(exp["labels"][i])), ["acc"])
+                break
+            if f[0] == "L":
+                if acc.get("len") != ["v", ["q", len(f[1]), 1]]:
+                    fail("context-length:" + src, "len(context) of interaction %d is %s for %d features" % (i, short(acc.get("len")), len(f[1])), ["acc"])
+                    break
+                if [p[1] if p[0] == "v" else p for p in acc.get("pos", [])] != f[1]:
+                    fail("context-by-position:" + src, "context[j] of interaction %d gives %s, the features are %s" % (i, short(acc.get("pos")), short(f[1])), ["acc"])
+                    break
+                if acc.get("headers"):
+                    names = access_keys(case)["names"]
+                    if [h[0] for h in acc["headers"]] != names or [h[1] for h in acc["headers"]] != list(range(len(names))):
+                        fail("context-headers:" + src, "context.headers of interaction %d is %s, the feature columns are %s" % (i, short(acc["headers"]), short(names)), ["acc"])
+                        break
+                    got = [r[1] if r[0] == "v" else r for _, r in acc["names"]]
+                    if got != f[1]:
+                        fail("context-by-name:" + src, "context[name] for the feature names %s of interaction %d gives %s, the features are %s" % (short(names), i, short(got), short(f[1])), ["acc"])
+                        break
+            elif f[0] == "D":
+                want = {json.dumps(k): v for k, v in f[1]}
+                bad = [(k, r) for k, r in acc["names"] if json.dumps(k) in want and r != ["v", want[json.dumps(k)]]]
+                bad += [(k, r) for k, r in acc["names"] if json.dumps(k) not in want and r[0] == "v" and r[1] != ["q", 0, 1]]
+                if bad:
+                    fail("context-by-key:" + src, "context[%s] of interaction %d gives %s, the features are %s" % (short(bad[0][0]), i, short(bad[0][1]), short(f)), ["acc"])
+                    break
     if case.get("edge") or lt is None:
         return fails
     # the same action list everywhere
@@ -702,6 +807,8 @@ def model_request(case, probes):
             cells.insert(i, to_label(canon(lab)))
             rows.append(cells)
         req.update(op="dense", ind=label_index(case), rows=rows)
+        if case.get("header") and case.get("edge_kind") != "duplicate-header":
+            req["header"] = list(case["header"])
     elif src in ("sarff", "rows"):
         if src == "sarff":
             key = canon(case["header"][label_index(case)])
@@ -746,7 +853,8 @@ def model_obs(ans, op):
 def same_res(a, b):
     if a[0] == "v" and b[0] == "v":
         # the model's value is an exact rational; the implementation's a double: equal after rounding
-        return Fraction(a[1], a[2]) == Fraction(b[1], b[2]) or a[1] / a[2] == b[1] / b[2]
+        x, y = Fraction(a[1], a[2]), Fraction(b[1], b[2])
+        return x == y or (0 <= x <= 1 and 0 <= y <= 1 and a[1] / a[2] == b[1] / b[2])
     return a == b
 
 
@@ -808,6 +916,8 @@ STR_POOL = ["a", "b", "c", "ab", "B", "10", "9", "é", "x y", "z9", "", "abc", "
 FILE_POOL = ["a", "b", "c", "ab", "B", "10", "9", "z9", "Yes", "no", "abc", "b2"]
 CSV_POOL = FILE_POOL + ["x y", "p,q", 'say "hi"', "é"]
 INT_POOL = [0, 1, 2, 3, 9, 10, -1, -2, 7, 100]
+BIG_POOL = [2 ** 60 + 1, 2 ** 53 + 1, -(2 ** 62) - 3, 10 ** 20 + 7, 2 ** 60, 2 ** 64 - 1]
+FRAC_POOL = [[1, 3], [-2, 7], [10 ** 18 + 1, 3], [22, 7]]
 FLT_POOL = [[1, 2], [3, 2], [-1, 2], [5, 4], [2, 1], [0, 1], [7, 2], [1, 4]]   # n/d, d a power of two
 
 
@@ -836,6 +946,23 @@ class Gen:
 
     def num_cell(self):
         return ci(self.r.choice(INT_POOL)) if self.r.chance(0.6) else cf(self.r.choice(FLT_POOL))
+
+    def targets(self, n, fractions=False):
+        """n regression targets: small ints / dyadic floats, or (a quarter of the cases) exact mode: integers
+        beyond 2**53 (no double holds them), small integers and, where the label type is explicit, Fractions —
+        no floats then, so every reward is exact and compared exactly at small integer distances"""
+        if not self.r.chance(0.35):
+            return [self.num_cell() for _ in range(n)]
+        out = []
+        for _ in range(n):
+            m = self.r.below(10)
+            if m < 5:
+                out.append(ci(self.r.choice(BIG_POOL)))
+            elif fractions and m < 8:
+                out.append({"fr": list(self.r.choice(FRAC_POOL))})
+            else:
+                out.append(ci(self.r.choice(INT_POOL)))
+        return out
 
     def num_universe(self):
         k = self.r.randint(1, 5)
@@ -902,7 +1029,7 @@ class Gen:
             Y = self.labels_from([cs(s) for s in self.universe(STR_POOL)], n)
             lt = r.choice([None, None, "c", "C"])
         elif kind in ("int", "float"):
-            uni = self.num_universe() if kind == "float" else [ci(i) for i in self.universe(INT_POOL)]
+            uni = self.num_universe() if kind == "float" else [ci(i) for i in self.universe(INT_POOL + ([2 ** 60, 2 ** 60 + 1] if r.chance(0.2) else []))]
             Y = self.labels_from(uni, n)
             lt = r.choice(["c", "c", "C"])
         elif kind == "bool":
@@ -936,10 +1063,8 @@ class Gen:
                     Y.append({"l": r.shuffle(r.subset(uni, 0.5))})
             lt = r.choice(["m", "m", "M"])
         else:
-            Y = [self.num_cell() for _ in range(n)]
             lt = r.choice([None, None, "r", "R"])
-            if Y and "b" in Y[0]:
-                lt = "r"
+            Y = self.targets(n, fractions=lt is not None)
         case["label_type"] = lt
         if lt is None and r.chance(0.3):
             case["explicit_none"] = True
@@ -990,7 +1115,7 @@ class Gen:
             return None
         return r.choice([0, 1, 2, max(0, n - 1), n, n + 1, n + 3, r.randint(0, n + 1)])
 
-    def label_setup(self, pool, n, allow_reg=True):
+    def label_setup(self, pool, n, allow_reg=True, big=True):
         """(label cells, label_type, kind) for table-shaped sources with typed cells"""
         r = self.r
         kind = r.wchoice([(5, "str"), (3, "int"), (2, "float"), (3 if allow_reg else 0, "reg")])
@@ -1000,7 +1125,7 @@ class Gen:
             return self.labels_from([ci(i) for i in self.universe(INT_POOL)], n), r.choice(["c", "C"]), kind
         if kind == "float":
             return self.labels_from(self.num_universe(), n), "c", kind
-        return [self.num_cell() for _ in range(n)], r.choice([None, None, "r", "R"]), kind
+        return (self.targets(n) if big else [self.num_cell() for _ in range(n)]), r.choice([None, None, "r", "R"]), kind
 
     # ---- in-memory rows through ListSource + label_col
     def rows(self, tier):
@@ -1228,7 +1353,7 @@ def snippet_for(case):
     lines = ["import sys, os; sys.path.insert(0, os.environ.get('COBA_REPO', '/repo'))",
              "from coba.environments import Environments, SupervisedSimulation, CsvSource, ArffSource, LibSvmSource, ManikSource",
              "from coba.pipes import IterableSource, ListSource",
-             "from coba.primitives import Categorical"]
+             "from coba.primitives import Categorical", "from fractions import Fraction"]
     src = case["src"]
     lt = case.get("label_type")
     ctor = "Environments.from_supervised" if case.get("via") == "env" else "SupervisedSimulation"
@@ -1277,6 +1402,13 @@ def snippet_for(case):
               "            try: rs.append(it['rewards'](a))",
               "            except Exception as e: rs.append(repr(e))",
               "        print('  context', ctx, 'actions', list(it['actions']), 'rewards', it['rewards'], 'on actions', rs)"]
+    keys = access_keys(case)
+    if keys and keys["label"] is not None:
+        lines += ["        LABEL = %r" % (keys["label"],),
+                  "        try: print('  context[LABEL] ->', repr(it['context'][LABEL]), '(the label column must not be readable from the context)')",
+                  "        except Exception as e: print('  context[LABEL] raises', repr(e))"]
+    if label_type_in_force(case, examples(case)) == "r":
+        lines += ["        y = it['rewards']._argmax", "        print('  rewards at y, y+1, y-1:', [it['rewards'](a) for a in (y, y + 1, y - 1)])"]
     return "\n".join(lines) + "\n"
 
 
@@ -1378,6 +1510,11 @@ class C14(Property):
                         rows=[[ci(1), {"l": [cs("x"), cs("y")]}], [ci(2), {"l": [cs("y")]}], [ci(3), {"l": [cs("z"), cs("x")]}]]))
         cs_.append(dict(base, src="rows", sparse=True, label_col=cs("y"), label_type="c", take=None, pre={"tipe": "r"},
                         rows=[[[cs("a"), ci(1)], [cs("y"), ci(2)]], [[cs("b"), ci(2)]], [[cs("y"), ci(3)]]]))
+        # regression targets no double holds: rewards at distance 0, 1, 3 are compared exactly
+        cs_.append(dict(base, src="xy", label_type=None, rows=[[t(1), ci(2 ** 60 + 1)], [t(2), ci(2 ** 53 + 1)], [t(3), ci(5)]]))
+        cs_.append(dict(base, src="xy", label_type="r", rows=[[t(1), {"fr": [1, 3]}], [t(2), {"fr": [10 ** 18 + 1, 3]}], [t(3), ci(-(2 ** 62) - 3)]]))
+        cs_.append(dict(base, src="rows", sparse=False, label_col=0, label_type="r", take=None, rows=[[ci(2 ** 64 - 1), ci(1)], [ci(10 ** 20 + 7), ci(2)]]))
+        cs_.append(dict(base, src="xy", label_type="c", rows=[[t(1), ci(2 ** 60)], [t(2), ci(2 ** 60 + 1)], [t(3), ci(2 ** 60)]]))
         for c in cs_:
             c.setdefault("take", None)
         return cs_
@@ -1485,6 +1622,10 @@ class C14(Property):
         if exp["labels"]:
             l0 = exp["labels"][0]
             tags.append("label:" + ("cat" if l0[0] == "cat" else "list" if l0[0] == "L" else "str" if l0[0] == "s" else "num"))
+        if any(l[0] == "q" and l[2] == 1 and abs(l[1]) >= 2 ** 53 for l in exp["labels"]):
+            tags.append("label:int-beyond-2^53")
+        if any(l[0] == "q" and l[2] & (l[2] - 1) for l in exp["labels"]):
+            tags.append("label:fraction")
         if exp.get("levels") is not None:
             used = {v[1] for v in exp["lab"]}
             tags.append("cat:all-levels-used" if used >= set(exp["levels"]) else "cat:unused-level")
@@ -1510,6 +1651,29 @@ class C14(Property):
                     if d:
                         fails.append(F("A", d[1] + " (%s)" % describe(case), d[0]))
                         break
+                look = ans.get("lookup")
+                if look and "ints" in impl[0] and len(look) == len(impl[0]["ints"]) and not any(f["kind"] == "A" for f in fails) and "acc" not in skips[0]:
+                    hdr = case["header"]
+                    for i, (it, lk) in enumerate(zip(impl[0]["ints"], look)):
+                        acc = it.get("acc")
+                        if not acc or not acc.get("headers") or lk is None:
+                            continue
+                        mine = {json.dumps(canon(h)): (["v", from_label(r["v"])] if "v" in r else ["err", r["err"]]) for h, r in zip(hdr, lk["by_name"])}
+                        got = {json.dumps(k): r for k, r in acc["names"]}
+                        got[json.dumps(canon(access_keys(case)["label"]))] = acc.get("label")
+                        d = None
+                        if [h[0] for h in acc["headers"]] != lk["headers"]:
+                            d = "context.headers %s, model %s" % (short(acc["headers"]), short(lk["headers"]))
+                        else:
+                            for k, r in got.items():
+                                m = mine.get(k)
+                                if m is None or (r[0] != m[0]) or (r[0] == "v" and vkey_deep(r[1]) != vkey_deep(m[1])):
+                                    d = "context[%s] gives %s, model %s" % (k, short(r), short(m))
+                                    break
+                        if d:
+                            fails.append(F("A", "interaction %d: %s (%s)" % (i, d, describe(case)), "A:context-lookup"))
+                            break
+                    tags.append("lookup-compared")
                 if not case.get("edge"):
                     for sig, what, _ in monitor(mobs, exp, probes, case, 0, who="model"):
                         if sig != "categorical-unused-level-offered":
